@@ -1,9 +1,11 @@
 import AcraModel.Censor.Chain
 import AcraModel.Censor.Session
 import AcraModel.Censor.Match
+import AcraModel.Censor.Generalise
+import AcraModel.Censor.MatchTyping
 /-! Driver ops for C05 (acra-censor): the very definitions `Props/C05.lean` is about. -/
 namespace Driver.C05
-open AcraModel AcraModel.Censor
+open AcraModel AcraModel.Censor Generated.CensorTable
 
 /-! ## trees on the wire: `L<hex>` leaf, `N<Kind>:<k>` node followed by k subtrees, comma separated -/
 
@@ -140,6 +142,25 @@ def session (cfg : Cfg Tree) (evs : List String) : Option String := do
   let out ← go [] evs []
   pure ("ok " ++ " ".intercalate out)
 
+/-! ## generalisation: σ on the wire is `-` or `i:a,i:a,…` with a ∈ v l c q w s t -/
+
+def actCode : Act → String
+  | .value => "v" | .lov => "l" | .column => "c" | .subquery => "q" | .whereP => "w" | .star => "s" | .stmt => "t"
+
+def actOf : String → Option Act
+  | "v" => some .value | "l" => some .lov | "c" => some .column | "q" => some .subquery
+  | "w" => some .whereP | "s" => some .star | "t" => some .stmt | _ => none
+
+def sigmaOf (tok : String) : Option Sigma :=
+  if tok == "-" then some []
+  else (tok.splitOn ",").mapM fun e =>
+    match e.splitOn ":" with
+    | [i, a] => do pure (← i.toNat?, ← actOf a)
+    | _ => none
+
+def sigmaTok (σ : Sigma) : String :=
+  if σ.isEmpty then "-" else ",".intercalate (σ.map fun (i, a) => s!"{i}:{actCode a}")
+
 def handle (op : String) (args : List String) : Option String :=
   match op, args with
   | "placeholders", [] =>
@@ -147,6 +168,27 @@ def handle (op : String) (args : List String) : Option String :=
       Match.subqueryPattern, Match.wherePattern, Match.valuePattern, Match.listOfValuesPattern, Match.columnPattern].map tokenOf))
   | "match", [p, s] => do
     match ← patOf p, ← stmtOf s with
+    | some p, ⟨_, some q⟩ => pure (toString (Match.patMatch q.ast p))
+    | _, _ => pure "err"
+  | "tablekinds", [] => some (",".intercalate tableKinds)
+  | "typed", [s] => do
+    match ← stmtOf s with
+    | ⟨_, some q⟩ => pure s!"ok {wellTypedM q.ast} {dmlKinds.contains q.ast.kind}"
+    | _ => pure "err"
+  | "positions", [s] => do
+    match ← stmtOf s with
+    | ⟨_, some q⟩ => pure (sigmaTok (positions false 0 q.ast))
+    | _ => pure "err"
+  | "gen", [s, σ] => do
+    match ← stmtOf s with
+    | ⟨_, some q⟩ => pure (tokenOf (generalise q.ast (← sigmaOf σ)))
+    | _ => pure "err"
+  | "genmatch", [s, σ] => do
+    match ← stmtOf s with
+    | ⟨_, some q⟩ => pure (toString (Match.patMatch q.ast (generalise q.ast (← sigmaOf σ))))
+    | _ => pure "err"
+  | "matchtree", [pt, s] => do
+    match treeOfToken pt, ← stmtOf s with
     | some p, ⟨_, some q⟩ => pure (toString (Match.patMatch q.ast p))
     | _, _ => pure "err"
   | "tables", n :: rest => do
